@@ -48,6 +48,11 @@ fn judge(rep: &Reporter, v: &str, evals: &AtomicU64, nontrivial: &AtomicU64) {
         (format!("(&(a={})(b=c))", esc), Filter::And(vec![Filter::Eq(a("a"), vb.clone()), Filter::Eq(a("b"), a("c"))])),
         (format!("(a>={})", esc), Filter::Ge(a("a"), vb.clone())),
         (format!("(a:dn:2.5.13.5:={})", esc), Filter::Ext { rule: Some(a("2.5.13.5")), attr: Some(a("a")), val: vb.clone(), dn: true }),
+        // the documented extension: an item without outer parentheses - the value is then the
+        // very end of the filter string
+        (format!("a={}", esc), Filter::Eq(a("a"), vb.clone())),
+        (format!("a<={}", esc), Filter::Le(a("a"), vb.clone())),
+        (format!("a:caseExactMatch:={}", esc), Filter::Ext { rule: Some(a("caseExactMatch")), attr: Some(a("a")), val: vb.clone(), dn: false }),
     ];
     for (s, want) in checks {
         match real_parse(s.as_bytes()) {
@@ -71,6 +76,20 @@ fn judge(rep: &Reporter, v: &str, evals: &AtomicU64, nontrivial: &AtomicU64) {
             Real::Accepted(got) if got == want => {}
             _ => {
                 rep.violation("escape:filter-not-inert", &format!("value {:?}: substring filter {:?} does not compile to {:?}", v, s, want), replay());
+            }
+        }
+    }
+    if !vb.is_empty() {
+        for (s, want) in [
+            (format!("a=x*{}", esc), Filter::Substr { attr: a("a"), initial: Some(a("x")), any: vec![], fin: Some(vb.clone()) }),
+            (format!("a={}*y", esc), Filter::Substr { attr: a("a"), initial: Some(vb.clone()), any: vec![], fin: Some(a("y")) }),
+        ] {
+            match real_parse(s.as_bytes()) {
+                Real::Accepted(got) if got == want => {}
+                _ => {
+                    rep.violation("escape:filter-not-inert", &format!("value {:?}: bare substring item {:?} does not compile to {:?}", v, s, want), replay());
+                    break;
+                }
             }
         }
     }
